@@ -1,6 +1,6 @@
 (* C17 — equality and diff are total, consistent, and name exactly what differs. *)
 From Coq Require Import ZArith QArith List Bool Arith.
-From SKC Require Import Base.QBool Base.QList Model.Diff Theory.Diff.
+From SKC Require Import Base.QBool Base.QList Model.Diff Theory.Diff Theory.Diff2.
 Import ListNotations.
 
 (* totality: incompatible lengths compare as "different" instead of raising *)
@@ -80,9 +80,53 @@ Theorem C17_shape_change_names_every_member : forall t a b,
 Proof. exact shape_change_names_all. Qed.
 Print Assumptions C17_shape_change_names_every_member.
 
+(* the general statement: diff names a member exactly when that member differs (beyond tolerance), for every
+   member of both object kinds; hence when exactly one member is changed, diff is exactly that member *)
+Theorem C17_matrix_diff_names_exactly_what_differs : forall t c a b m,
+  In m (dm_diff t c a b) <-> dm_member_ok t c a b m = false.
+Proof. exact dm_diff_names_exactly. Qed.
+Print Assumptions C17_matrix_diff_names_exactly_what_differs.
+
+Theorem C17_result_diff_names_exactly_what_differs : forall t a b m,
+  In m (res_diff t a b) <-> res_member_ok t a b m = false.
+Proof. exact res_diff_names_exactly. Qed.
+Print Assumptions C17_result_diff_names_exactly_what_differs.
+
+Theorem C17_one_matrix_member_changed : forall t c a b m,
+  dm_member_ok t c a b m = false -> (forall m', m' <> m -> dm_member_ok t c a b m' = true) ->
+  forall m', In m' (dm_diff t c a b) <-> m' = m.
+Proof. exact dm_one_member_changed. Qed.
+Print Assumptions C17_one_matrix_member_changed.
+
+Theorem C17_one_result_member_changed : forall t a b m,
+  res_member_ok t a b m = false -> (forall m', m' <> m -> res_member_ok t a b m' = true) ->
+  forall m', In m' (res_diff t a b) <-> m' = m.
+Proof. exact res_one_member_changed. Qed.
+Print Assumptions C17_one_result_member_changed.
+
+Theorem C17_no_member_named_twice : forall t c a b, NoDup (dm_diff t c a b).
+Proof. exact dm_diff_sorted_nodup. Qed.
+Print Assumptions C17_no_member_named_twice.
+
+(* results: a result equals its copy; exact equality implies tolerant equality; a ranking is never a kernel *)
+Theorem C17_result_equals_its_copy : forall r, NoDup (map fst (r_extra r)) -> equals (ORes r) (ORes r) = true.
+Proof. exact res_equals_copy. Qed.
+Print Assumptions C17_result_equals_its_copy.
+
+Theorem C17_result_exact_implies_tolerant : forall t a b,
+  0 <= rtol t -> 0 <= atol t -> equals (ORes a) (ORes b) = true -> aequals t (ORes a) (ORes b) = true.
+Proof. exact res_equals_implies_aequals. Qed.
+Print Assumptions C17_result_exact_implies_tolerant.
+
+Theorem C17_ranking_never_equals_kernel : forall a b, r_kernel a = true -> r_kernel b = false ->
+  equals (ORes a) (ORes b) = false.
+Proof. exact rank_and_kernel_results_differ. Qed.
+Print Assumptions C17_ranking_never_equals_kernel.
+
 Example C17_example :
   let a := {| r_kernel := false; r_method := 1%Z; r_alts := [1; 2; 3]%Z; r_vals := [1; 2; 3]; r_extra := [] |} in
   let b := {| r_kernel := false; r_method := 1%Z; r_alts := [1; 2]%Z; r_vals := [1; 2]; r_extra := [] |} in
   equals (ORes a) (ORes b) = false /\ snd (diff exact true (ORes a) (ORes b)) = [MAlternatives; MValues] /\
-  equals (ORes a) (ORes a) = true /\ equals (ORes a) (OOther 0) = false.
-Proof. vm_compute. repeat split. Qed.
+  equals (ORes a) (ORes a) = true /\ equals (ORes a) (OOther 0) = false /\
+  NoDup (map fst [(1%Z, [1]); (2%Z, [2; 3])]).
+Proof. vm_compute. repeat split. repeat constructor; simpl; intuition discriminate. Qed.
